@@ -14,6 +14,7 @@ import (
 	"github.com/taurusgroup/multi-party-sig/pkg/hash"
 	"github.com/taurusgroup/multi-party-sig/pkg/math/curve"
 	"github.com/taurusgroup/multi-party-sig/pkg/math/polynomial"
+	"github.com/taurusgroup/multi-party-sig/pkg/paillier"
 	"github.com/taurusgroup/multi-party-sig/pkg/party"
 	"github.com/taurusgroup/multi-party-sig/verifharness/conv"
 	"github.com/taurusgroup/multi-party-sig/verifharness/pbt"
@@ -85,6 +86,11 @@ func build(it Item) interface{} {
 	case "point":
 		x, _ := new(big.Int).SetString(it.V, 10)
 		return conv.Point(ref.BaseMul(x))
+	case "ciphertext":
+		x, _ := new(big.Int).SetString(it.V, 10)
+		ct := &paillier.Ciphertext{}
+		conv.Poke(ct, "c", new(saferith.Nat).SetBig(x, 4096))
+		return ct
 	case "roundnumber":
 		x, _ := new(big.Int).SetString(it.V, 10)
 		return round.Number(x.Int64())
@@ -210,8 +216,16 @@ func genBytes(t *rapid.T, label string, min, max int) string {
 
 var byteTypes = []string{"bytes", "rid", "commitment", "decommitment", "sigmsg", "id"}
 
+// genBig draws a non-negative integer of up to the given number of bits as a decimal string.
+func genBig(t *rapid.T, label string, bits int) string {
+	b := rapid.SliceOfN(rapid.Byte(), bits/8, bits/8).Draw(t, label)
+	return new(big.Int).SetBytes(b).String()
+}
+
 func genItem(t *rapid.T) Item {
-	switch rapid.IntRange(0, 13).Draw(t, "itemType") {
+	switch rapid.IntRange(0, 14).Draw(t, "itemType") {
+	case 14:
+		return Item{T: "ciphertext", V: genBig(t, "ct", 4090)}
 	case 0, 1:
 		return Item{T: rapid.SampledFrom(byteTypes).Draw(t, "byteType"), V: genBytes(t, "v", 1, 40)}
 	case 2:
@@ -278,7 +292,7 @@ func clone(a []Item) []Item {
 func genTwin(t *rapid.T) Case {
 	kind := rapid.SampledFrom([]string{"identical", "shift-item-boundary", "shift-domain-boundary", "split", "merge", "retype", "permute", "insert-empty",
 		"ids-equal-concatenation", "ids-permuted", "bigint-sign", "nat-vs-int", "exponent-flag", "exponent-vs-coefs", "drop-item", "independent", "sigmsg-nil-vs-empty",
-		"number-width", "scalar-vs-nat"}).Draw(t, "kind")
+		"number-width", "scalar-vs-nat", "ciphertext-high-bits", "ciphertext-vs-bytes"}).Draw(t, "kind")
 	pre := genSeq(t, 0, 3)
 	post := genSeq(t, 0, 3)
 	mk := func(a, b []Item) Case {
@@ -331,6 +345,23 @@ func genTwin(t *rapid.T) Case {
 			}
 		}
 		return mk([]Item{{T: "nat", V: fmt.Sprint(v)}}, []Item{{T: tt, V: fmt.Sprint(v)}})
+	case "ciphertext-high-bits":
+		// two ciphertexts that agree in their low 2048 bits (the size of the modulus) and differ above
+		lo := genBig(t, "lo", 2048)
+		hi1, hi2 := genBig(t, "hi1", 2040), genBig(t, "hi2", 2040)
+		if hi1 == hi2 {
+			hi2 = "0"
+		}
+		v := func(hi string) string {
+			a, _ := new(big.Int).SetString(hi, 10)
+			b, _ := new(big.Int).SetString(lo, 10)
+			return a.Lsh(a, 2048).Add(a, b).String()
+		}
+		return mk([]Item{{T: "ciphertext", V: v(hi1)}}, []Item{{T: "ciphertext", V: v(hi2)}})
+	case "ciphertext-vs-bytes":
+		c := genBig(t, "c", 4090)
+		cb, _ := new(big.Int).SetString(c, 10)
+		return mk([]Item{{T: "ciphertext", V: c}}, []Item{{T: "bytes", V: hex.EncodeToString(cb.FillBytes(make([]byte, 512)))}})
 	case "exponent-flag":
 		l := []string{fmt.Sprint(rapid.Uint64Range(1, 1<<60).Draw(t, "c0")), fmt.Sprint(rapid.Uint64Range(1, 1<<60).Draw(t, "c1"))}
 		return mk([]Item{{T: "exponent", L: l, F: false}}, []Item{{T: "exponent", L: l, F: true}})
